@@ -155,6 +155,19 @@ def rename_silent(pid: str, mod, repo: str) -> Tuple[bool, str]:
         shutil.rmtree(tmp, ignore_errors=True)
 
 
+def annotate_silent(pid: str, mod, repo: str) -> Tuple[bool, str]:
+    """Give local assignments a vacuous type annotation (`x: object = v`) on a scratch copy: the verdict must not change."""
+    from .benign_gen import annotate_locals_copy
+    tmp, total = annotate_locals_copy(repo)
+    try:
+        code, viol, _ = run_property(pid, "thorough", tmp, mod.check, mod.EXPLANATION, mod.NOT_DECIDED, write_evidence=False, quiet=True)
+        return code == 0, f"{total} assignments annotated; " + "; ".join(f"{v.rule}:{v.key[:80]}" for v in viol[:3])
+    except AnalysisError as e:
+        return False, f"analysis error: {e}"
+    finally:
+        shutil.rmtree(tmp, ignore_errors=True)
+
+
 def run_thorough(pid: str, mod, repo: str, write_evidence: bool = True) -> int:
     t0 = time.time()
     code, viol, ctx = run_property(pid, "thorough", repo, mod.check, mod.EXPLANATION, mod.NOT_DECIDED,
@@ -181,6 +194,8 @@ def run_thorough(pid: str, mod, repo: str, write_evidence: bool = True) -> int:
     print(f"[{pid}] whole-package ast.unparse reformat leaves the verdict unchanged: {rf_ok} {rf_detail}")
     rn_ok, rn_detail = rename_silent(pid, mod, repo) if code == 0 else (True, "skipped (violation present)")
     print(f"[{pid}] renaming every local variable leaves the verdict unchanged: {rn_ok} {rn_detail}")
+    an_ok, an_detail = annotate_silent(pid, mod, repo) if code == 0 else (True, "skipped (violation present)")
+    print(f"[{pid}] annotating local assignments leaves the verdict unchanged: {an_ok} {an_detail}")
     wall = time.time() - t0
     if write_evidence:
         failing = [o for o in obs if not o.ok]
@@ -190,7 +205,8 @@ def run_thorough(pid: str, mod, repo: str, write_evidence: bool = True) -> int:
                                        "checker_selftest": {"mutants": n_mut, "caught": caught, "stale": stale,
                                                             "benign": n_ben, "benign_silent": ben_ok,
                                                             "missed": [r["id"] for r in st_res if r["kind"] == "mutant" and not r["ok"] and r["status"] != "stale"]},
-                                       "reformat_invariant": rf_ok, "rename_locals_invariant": rn_ok})
+                                       "reformat_invariant": rf_ok, "rename_locals_invariant": rn_ok,
+                                       "annotate_locals_invariant": an_ok})
     if code == 0 and viol == [] and (not st_ok) and all(o.ok or True for o in obs):
         missed = [r["id"] for r in st_res if not r["ok"] and r["status"] != "stale"]
         # a self-test miss is a checker defect: report, but only fail the run when the tree itself is clean (otherwise the
@@ -202,5 +218,8 @@ def run_thorough(pid: str, mod, repo: str, write_evidence: bool = True) -> int:
         return 2
     if not rn_ok:
         print(f"ANALYSIS-ERROR property={pid}: verdict changes when local variables are renamed ({rn_detail})")
+        return 2
+    if not an_ok:
+        print(f"ANALYSIS-ERROR property={pid}: verdict changes when local assignments are annotated ({an_detail})")
         return 2
     return code
